@@ -69,6 +69,22 @@ def evaluate(case):
     if case["omitted"]:
         kw["OmittedXrangeCorrection"] = True
     fails = []
+    # "for all grids": the same rows in another order (descending, or two banks stored high-angle first) — omitting the window, or one
+    # side of it, still means the full data range
+    if len(x) >= 4:
+        k = 1 + len(x) // 3
+        for oname, order in (("descending", np.arange(len(x))[::-1]), ("two banks, high first", np.concatenate([np.arange(k, len(x)), np.arange(0, k)]))):
+            xr, yr, er = x[order], y[order], None if dy is None else dy[order]
+            with np.errstate(all="ignore"):
+                expl = tr.fourier_transform(xr, yr, xo, xmin=float(x.min()), xmax=float(x.max()), dy_in=er, **kw)
+                for wname, w in (("no window", {}), ("xmax only", dict(xmax=float(x.max()))), ("xmin only", dict(xmin=float(x.min())))):
+                    got = tr.fourier_transform(xr, yr, xo, dy_in=er, **w, **kw)
+                    if not same(got, expl):
+                        fails.append(f"fourier_transform on a grid stored {oname}: {wname} differs from the explicit full data range "
+                                     f"[{float(x.min())!r}, {float(x.max())!r}]")
+                        break
+            if fails:
+                return fails
     if lo is None:
         full = tr.fourier_transform(x, y, xo, dy_in=dy, **kw)
         expl = tr.fourier_transform(x, y, xo, xmin=float(x.min()), xmax=float(x.max()), dy_in=dy, **kw)
